@@ -177,7 +177,7 @@ PROPS = {
     },
     'C05': {
         'families': [('fr', ['FR-F1', 'FR-F2', 'FR-F3', 'FR-F4', 'SW']), ('dg', ['DG-D4']), ('sc', ['SC-C05']), ('lb', ['LB'])],
-        'floors': {'FR-F1': 11, 'FR-F2': 13, 'FR-F3': 13, 'FR-F4': 6, 'SW': 2, 'DG-D4': 18, 'SC-C05': 10, 'LB': 2},
+        'floors': {'FR-F1': 11, 'FR-F2': 13, 'FR-F3': 13, 'FR-F4': 10, 'SW': 2, 'DG-D4': 18, 'SC-C05': 10, 'LB': 2},
         'title': 'File framing: which lines reach which section parser',
     },
     'C08': {
